@@ -278,14 +278,15 @@ def coq_eval_cases(prop, prelude, case_terms, check_fn, shard=250, timeout=900, 
 def known_findings(prop):
     """lines:  known: property=Cnn key=<key> <text>     fixed: property=Cnn <commit> <text>"""
     out = {}
-    p = os.path.join(VERIF, "KNOWN_FINDINGS.txt")
-    if not os.path.exists(p):
-        return out
-    for line in open(p):
-        line = line.strip()
-        m = re.match(r"known:\s+property=(\S+)\s+key=(\S+)\s+(.*)", line)
-        if m and m.group(1) == prop:
-            out[m.group(2)] = m.group(3)
+    paths = [os.path.join(VERIF, "KNOWN_FINDINGS.txt")] + sorted(glob.glob(os.path.join(VERIF, "known_findings.d", "*.txt")))
+    for p in paths:
+        if not os.path.exists(p):
+            continue
+        for line in open(p):
+            line = line.strip()
+            m = re.match(r"known:\s+property=(\S+)\s+key=(\S+)\s+(.*)", line)
+            if m and m.group(1) == prop:
+                out[m.group(2)] = m.group(3)
     return out
 
 
